@@ -309,6 +309,16 @@ def execute(case, ctx, cls=None, extra_kwargs=None, after_create=None):
                         early['end'] = 'stopped'
                     except BaseException as e:
                         early['end'] = 'raised:' + type(e).__name__
+                        return
+                    if case.get('read_again'):
+                        # the iteration has just stopped (end of stream seen); the worker may still be winding down: one more read at once
+                        try:
+                            w.next_result()
+                            early['again'] = 'value'
+                        except queue.Empty:
+                            early['again'] = 'empty'
+                        except BaseException as e:
+                            early['again'] = 'raised:' + type(e).__name__
                 early['thread'] = threading.Thread(target=consume, daemon=True, name='verif-early-consumer')
                 early['thread'].start()
                 if case.get('consumer_lead'):
@@ -477,12 +487,19 @@ def execute(case, ctx, cls=None, extra_kwargs=None, after_create=None):
             elif early is not None:
                 early['thread'].join(30)
                 if early['thread'].is_alive():
-                    obs['stream_end'] = 'blocked'
-                    obs['stream'] = None
+                    if early['end'] == 'stopped' and case.get('read_again'):
+                        obs['stream'] = list(early['got'])
+                        obs['stream_end'] = 'stopped'
+                        obs['read_again'] = 'blocked'
+                    else:
+                        obs['stream_end'] = 'blocked'
+                        obs['stream'] = None
                     obs['early_got'] = list(early['got'])
                 else:
                     obs['stream'] = list(early['got'])
                     obs['stream_end'] = early['end']
+                    if case.get('read_again') and early['end'] == 'stopped':
+                        obs['read_again'] = early.get('again')
                     if early['end'] == 'stopped':
                         try:
                             bounded(w.next_result, 30)
